@@ -16,6 +16,8 @@ import (
 // (2) concrete confirmation through the public API: fixtures with unsupported constituents must make
 // goderive exit non-zero, never exit 0 with output that fails to parse/type-check.
 func runC09(r *Runner) {
+	// (0) finder gate: call.HasUndefined over a symbolic argument list (mode B)
+	r.modeB("derive", "^VX_C09_", true, DefaultBounds)
 	ld, err := loadProgram(r.S.Repo, []string{"./plugin/...", "./vxlib/vx"}, goEnv())
 	if err != nil {
 		r.inconsistent("loading plugin packages failed: " + err.Error())
@@ -202,6 +204,16 @@ func (r *Runner) c09Fixtures() map[string]string {
 				fxs = append(fxs, fx{plugin, name, fmt.Sprintf("package %s\n\n"+decl+"\n\n%s\n", name, ut, call)})
 			}
 		}
+	}
+	// finder side: calls whose LATER arguments are not known yet (nested derive call) or never will be
+	// (undefined function); the first kind must generate a well-typed package, the second must be rejected
+	for name, body := range map[string]string{
+		"finder_nested_second":   "func use(m map[string]int) (int, []string) { return deriveTuple(len(m), deriveSort(deriveKeys(m)))() }",
+		"finder_nested_third":    "func use(m map[string]int) (int, string, []string) { return deriveTuple3(len(m), \"a\", deriveSort(deriveKeys(m)))() }",
+		"finder_undefined_later": "func use(m map[string]int) { deriveTupleU(1, undefinedThing(m)) }",
+		"finder_undefined_first": "func use(m map[string]int) { deriveTupleU(undefinedThing(m), 1) }",
+	} {
+		fxs = append(fxs, fx{"finder", name, fmt.Sprintf("package %s\n\n%s\n", name, body)})
 	}
 	sort.Slice(fxs, func(i, j int) bool { return fxs[i].name < fxs[j].name })
 	type out struct {
